@@ -12,13 +12,15 @@ import tempfile
 from concurrent.futures import ThreadPoolExecutor
 
 VERIF = os.path.dirname(os.path.dirname(os.path.abspath(__file__)))
-EXPECT_MISS = {"C08b": "RectClip64 closing heuristic: not decided (DESIGN 9.3)"}
+EXPECT_MISS = {"C08b": "RectClip64 closing heuristic: not decided (DESIGN 9.3)",
+               "C08e": "RectClip64::TidyEdges re-join bookkeeping: not decided (DESIGN 9.3)"}
 # seeds that are (also) caught under another property than the one the author named
 ALSO = {"C08a": ["C12"], "C10a": ["C12"], "C11b": ["C12"], "C12a": ["C08"], "C12b": ["C07"], "C13a": ["C10", "C18"], "C01b": ["C10", "C13", "C18"],
         "C06a": ["C07", "C12"], "C06b": ["C12"], "C12d": ["C06"], "C10c": ["C12"], "C05c": ["C12"], "C01c": ["C12"], "C13b": ["C05"], "C16c": ["C15"],
         "C13c": ["C15", "C03"], "C12c": ["C08"], "C07b": ["C06"], "C05d": ["C12"], "C07c": ["C06"], "C17d": ["C16"], "C03d": ["C04"],
         "C04e": ["C08"], "C06d": ["C07", "C15"],
-        "C20e": ["C11", "C08"], "C03f": ["C13", "C15"], "C07e": ["C06", "C12"], "C01f": ["C18"], "C05f": ["C04"], "C18e": ["C13"]}
+        "C20e": ["C11", "C08"], "C03f": ["C13", "C15"], "C07e": ["C06", "C12"], "C01f": ["C18"], "C05f": ["C04"], "C18e": ["C13"],
+        "C04f": ["C03", "C16"], "C16g": ["C05"], "C13f": ["C01"], "C09e": ["C08"], "C07f": ["C06"]}
 
 
 def run(sid, all_checks=False):
